@@ -14,7 +14,8 @@ pub struct Case {
     pub b: usize,
     /// order of the two separator setters on the re-configured calculator: bit 0 for A, bit 1 for B (set = thousands first);
     /// bits 2-3: number / percentage format in force on BOTH sides (0 default, 1 rounding off, 2 four digits with the
-    /// zero fraction kept, 3 no digits and rounding off)
+    /// zero fraction kept, 3 no digits and rounding off); bit 4: on the re-configured calculator each text is read first under
+    /// the OTHER convention
     #[serde(default)]
     pub order: u8,
 }
@@ -115,7 +116,18 @@ impl Prop for Separators {
             cb.order = (c.order >> 1) & 1;
             // the sequence starts from the library's default configuration, so that a case is self-contained
             let start = crate::common::Cfg::default();
-            let steps: [(&crate::common::Cfg, &str, Option<&crate::common::EvalOut>); 6] = [(&start, "1", None), (&ca, &text_a, Some(&oa)), (&cb, &text_a, None), (&cb, &text_b, Some(&ob)), (&ca, &text_b, None), (&ca, &text_a, Some(&oa))];
+            // one case in eight starts on a fresh scratch calculator: whatever the library remembers then comes from THIS
+            // sequence alone (building a calculator costs as much as a hundred evaluations)
+            if c.order >> 4 & 1 == 1 && c.a % 4 == 0 {
+                w.calcs.forget_scratch();
+            }
+            // every other case reads each text FIRST under the other convention (a value remembered from the first
+            // reading must not be served to the second)
+            let steps: [(&crate::common::Cfg, &str, Option<&crate::common::EvalOut>); 6] = if (c.order >> 4) & 1 == 0 {
+                [(&start, "1", None), (&ca, &text_a, Some(&oa)), (&cb, &text_a, None), (&cb, &text_b, Some(&ob)), (&ca, &text_b, None), (&ca, &text_a, Some(&oa))]
+            } else {
+                [(&start, "1", None), (&cb, &text_a, None), (&ca, &text_a, Some(&oa)), (&ca, &text_b, None), (&cb, &text_b, Some(&ob)), (&ca, &text_a, Some(&oa))]
+            };
             for (k, (cfg, text, expect)) in steps.iter().enumerate() {
                 match w.eval_reconfigured(cfg, &c.g.lang, text) {
                     Ok(o) => {
@@ -192,7 +204,7 @@ impl Prop for Separators {
 }
 
 pub fn case_strategy() -> impl Strategy<Value = Case> {
-    (any_line(), 0usize..4, 1usize..4, 0u8..4, prop_oneof![2 => Just(0u8), 1 => 1u8..4]).prop_map(|(g, a, d, order, fmt)| Case { g, a, b: (a + d) % 4, order: order | (fmt << 2) })
+    (any_line(), 0usize..4, 1usize..4, 0u8..4, prop_oneof![2 => Just(0u8), 1 => 1u8..4]).prop_map(|(g, a, d, order, fmt)| Case { g, a, b: (a + d) % 4, order: order | (fmt << 2) | ((((a + d) % 2) as u8) << 4) })
 }
 
 pub fn regressions() -> Vec<Case> {
